@@ -508,6 +508,8 @@ func ParseDSL(data string) (*OpenFgaDslListener, *OpenFgaDslErrorListener) {
 	cleanedLines := []string{}
 
 	for _, line := range strings.Split(data, "\n") {
+		// Windows line ends: the lexer's NEWLINE rule needs super-quadratic time on runs of "\r\n"
+		line = strings.TrimSuffix(line, "\r")
 		cleanedLine := ""
 
 		switch {
